@@ -140,3 +140,6 @@ package db
 //@   opt panics=allowed safety=assumed
 //@   frame d.kvhas, d.kvval
 //@   ensures d.kvhas == store(old(d.kvhas), bytes(key), true) && d.kvval == store(old(d.kvval), bytes(key), bytes(value))
+
+// executable forms of spec functions (used only by counterexample replays)
+//@ go func oracle_prefixLimit(p, l string) bool { for i := 0; i < len(p); i++ { if len(l) == i+1 && p[i] < 255 && l[i] == p[i]+1 && l[:i] == p[:i] { ok := true; for m := i + 1; m < len(p); m++ { if p[m] != 255 { ok = false } }; if ok { return true } } }; return false }
